@@ -21,6 +21,11 @@ fn console_vxw_c03_handler() {
         ("GET", "/metadata/instance?api-version=2021-02-01", ReqBody::None),
         ("POST", "/machine/upload?x=1", ReqBody::Len(b"0123456789".to_vec())),
         ("PUT", "/vmAgentLog", ReqBody::Chunked(b"abcdefgh".to_vec(), vec![3])),
+        // absolute-form request targets: whatever authority (host, port) the client writes, the connection's RECORDED destination decides
+        ("GET", "http://168.63.129.16:8080/machine?comp=goalstate", ReqBody::None),
+        ("GET", "http://169.254.169.254/machine?comp=goalstate", ReqBody::None),
+        ("GET", "http://168.63.129.16:32526/machine?comp=goalstate", ReqBody::None),
+        ("GET", "http://localhost:80/machine?comp=goalstate", ReqBody::None),
     ];
     let mut configs: Vec<Option<(&str, &str, u8)>> = vec![None];
     for mode in ["disabled", "audit", "enforce"] {
